@@ -1,4 +1,6 @@
 pub mod crash;
+pub mod lock;
+pub mod phase;
 pub mod repl;
 pub mod rights;
 
@@ -11,6 +13,8 @@ pub fn generate(engine: &str, prop: &str, seed: u64, thorough: bool) -> Trace {
         "repl" => repl::generate(seed, prop, thorough),
         "crash" => crash::generate(seed, prop, thorough),
         "rights" => rights::generate(seed, prop, thorough),
+        "lock" => lock::generate(seed, prop, thorough),
+        "phase" => phase::generate(seed, prop, thorough),
         _ => panic!("unknown engine {engine}"),
     }
 }
@@ -20,6 +24,8 @@ pub fn directed(engine: &str, prop: &str) -> Vec<Trace> {
         "repl" => repl::directed(prop),
         "crash" => crash::directed(prop),
         "rights" => rights::directed(prop),
+        "lock" => lock::directed(prop),
+        "phase" => phase::directed(prop),
         _ => vec![],
     }
 }
@@ -29,6 +35,8 @@ pub fn execute(trace: &Trace, keep_log: bool) -> (RunReport, Vec<String>) {
         "repl" => repl::execute(trace, keep_log),
         "crash" => crash::execute(trace, keep_log),
         "rights" => rights::execute(trace, keep_log),
+        "lock" => lock::execute(trace, keep_log),
+        "phase" => phase::execute(trace, keep_log),
         e => panic!("unknown engine {e}"),
     }
 }
@@ -63,6 +71,7 @@ pub fn specs() -> Vec<PropSpec> {
             ],
             real: repl_real,
             stub: STUB_NET,
+            batch: 1,
         },
         PropSpec {
             id: "C11",
@@ -75,6 +84,7 @@ pub fn specs() -> Vec<PropSpec> {
             ],
             real: repl_real,
             stub: STUB_NET,
+            batch: 1,
         },
         PropSpec {
             id: "C09",
@@ -87,6 +97,7 @@ pub fn specs() -> Vec<PropSpec> {
             ],
             real: repl_real,
             stub: STUB_NET,
+            batch: 1,
         },
         PropSpec {
             id: "C17",
@@ -97,6 +108,7 @@ pub fn specs() -> Vec<PropSpec> {
             assumptions: &["search terms are vocabulary tokens of 3+ lower-case letters/digits"],
             real: repl_real,
             stub: STUB_NET,
+            batch: 1,
         },
         PropSpec {
             id: "C13",
@@ -111,6 +123,7 @@ pub fn specs() -> Vec<PropSpec> {
             ],
             real: repl_real,
             stub: STUB_NET,
+            batch: 1,
         },
         PropSpec {
             id: "C18",
@@ -121,6 +134,7 @@ pub fn specs() -> Vec<PropSpec> {
             assumptions: &["no requirement on which event or how many; ingestion events are checked in the repl engine"],
             real: repl_real,
             stub: STUB_NET,
+            batch: 1,
         },
         PropSpec {
             id: "C01",
@@ -135,6 +149,7 @@ pub fn specs() -> Vec<PropSpec> {
             ],
             real: repl_real,
             stub: STUB_NET,
+            batch: 1,
         },
         PropSpec {
             id: "C10",
@@ -145,6 +160,7 @@ pub fn specs() -> Vec<PropSpec> {
             assumptions: &["same rights model as C01"],
             real: repl_real,
             stub: STUB_NET,
+            batch: 1,
         },
         PropSpec {
             id: "C12",
@@ -155,6 +171,34 @@ pub fn specs() -> Vec<PropSpec> {
             assumptions: &["the two implementations are each other's oracle; the rights model only labels the report"],
             real: repl_real,
             stub: STUB_NET,
+            batch: 1,
+        },
+        PropSpec {
+            id: "C20",
+            engine: "lock",
+            budget_s: (40, 600),
+            level: "exploration",
+            rule: "the real RoomLockService actor (limit 1-2) and 1-3 abstract connections x 1-3 rooms; the seeded schedule orders lock requests (new peer, repeated and extended requests while waiting, overlapping sets), releases, stray and double unlocks, connection ends and receivers dropped while waiting, up to 40 (thorough: 60) messages; the actor is single-threaded, so the message order is its schedule; a run is non-trivial if at least one lock was granted; distinct = distinct schedule signature (message kinds, actors, grants observed)",
+            assumptions: &[
+                "abstract clients are well behaved: they release exactly what they were granted (the real connection loop is exercised in the conn engine)",
+                "bounded liveness: after the last fault every holder releases; the service must grant every pending request of a live connection before it goes idle",
+            ],
+            real: &["RoomLockService actor (room_locking_service.rs)"],
+            stub: &["connections (abstract clients owning the reply channels)"],
+            batch: 40,
+        },
+        PropSpec {
+            id: "C16",
+            engine: "phase",
+            budget_s: (40, 600),
+            level: "exploration",
+            rule: "one live node; 2-3 mutations on the same row (different fields, same field, reference add, single-reference replace, room move) issued by concurrent callers or pipelined on the mutation stream; the simulator decides with the batch gate whether a later mutation is read before or after an earlier one is written (flush points); the final row must equal the acknowledged mutations applied serially in some order; non-trivial = at least two mutations acknowledged; distinct = distinct schedule signature",
+            assumptions: &[
+                "one reader thread and one authorisation actor: read and validate/sign phases happen in issue order; the only freedom of the production pipeline is when the writer commits relative to later reads, which the gate decides",
+            ],
+            real: repl_real,
+            stub: &[],
+            batch: 1,
         },
     ]
 }
